@@ -10,6 +10,7 @@ open OdlModel OdlModel.Weighting
 * `norm  sp=<space> x=<clist>`            → `ok v=<rational of the double>`      (`Float`)
 * `dist  sp=<space> x=<clist> y=<clist>`  → `ok v=<rational of the double>`      (`Float`)
 * `info  sp=<space>`  (discretized)       → `ok n=… fl=… fr=… w=…`              (exact)
+* `cinner` / `cnorm` / `cdist` (custom weightings, see below) → `ok v=…` | `err:notimpl`
 
 `<space>` is a prefix token stream separated by `~`:
 `T~n~p~W` tensor; `D~unif~p~W~d~(n~fl~fr)^d` discretized with given fractions;
@@ -206,12 +207,104 @@ def doInfo (l : Line) : Option String := do
       some s!"ok n={showNatList (axes.map (·.n))} fl={showRatList (axes.map (·.fl))} fr={showRatList (axes.map (·.fr))} w={showRat c}"
   | _ => none
 
+/-! #### custom weightings: ops `cinner` / `cnorm` / `cdist`
+
+`k=T|P` (tensor / product space: pure delegation, elements flat) `n=<size>` or
+`k=D u=<unif> ax=<n,fl,fr;…>` (discretized: boundary scaling, then delegation);
+`ck=i B=<matrix>` (`inner = vdot(B v, B u)`), `ck=n w=<list>` (`norm = max(w |u|)`),
+`ck=d w=<list> cap=<rat>` (`dist = min(cap, sum(w |u - v|))`). -/
+
+section custom
+variable {K R : Type} [OfNat K 0] [Add K] [Mul K] [Sub K]
+  [OfNat R 0] [OfNat R 1] [OfNat R 2] [Add R] [Sub R] [Mul R] [Div R] [Max R] [Min R]
+
+def mkCustom (cvK : Rat → K) (cvR : Rat → R) (o : IOps K R) (abs : K → R) (n : Nat) (l : Line) :
+    Option (Custom K R (Nat → K)) := do
+  let ck ← l.get? "ck"
+  if ck = "i" then
+    let B ← l.mat? "B"
+    if B.length != n || B.any (fun r => r.length != n) then none
+    let Ba := (B.map (fun r => (r.map cvK).toArray)).toArray
+    some (.inner (gramInner o n (fun i j => (Ba.getD i #[]).getD j (cvK 0))))
+  else if ck = "n" then
+    let w ← l.rats? "w"
+    if w.length != n then none
+    some (.norm (wMaxNorm abs n (arrFn cvR (w.map cvR).toArray)))
+  else if ck = "d" then
+    let w ← l.rats? "w"
+    let cap ← l.rat? "cap"
+    if w.length != n then none
+    some (.dist (capDist abs n (arrFn cvR (w.map cvR).toArray) (cvR cap)))
+  else none
+
+/-- `(unif, axes, size)`; tensor / product spaces: `none` for the first two. -/
+def customGeom (cvR : Rat → R) (l : Line) : Option (Option (Bool × List (Axis R)) × Nat) := do
+  let k ← l.get? "k"
+  if k = "T" || k = "P" then
+    let n ← l.nat? "n"
+    some (none, n)
+  else if k = "D" then
+    let u ← l.bool? "u"
+    let ax ← l.mat? "ax"
+    let axes ← ax.mapM (fun r => match r with
+      | [n, fl, fr] => if n.den = 1 && n.num > 0 then some (⟨n.num.toNat, cvR fl, cvR fr⟩ : Axis R) else none
+      | _ => none)
+    some (some (u, axes), axesSize axes)
+  else none
+
+def getVec (cvK : CRat → K) (n : Nat) (l : Line) (k : String) : Option (Nat → K) := do
+  let xs ← l.crats? k
+  if xs.length != n then none
+  let a := (xs.map cvK).toArray
+  some (fun i => a.getD i 0)
+
+end custom
+
+def showOptC : Option CRat → String
+  | some v => s!"ok v={v.str}"
+  | none => "err:notimpl"
+
+def showOptF : Option Float → String
+  | some v => showFloat v
+  | none => "err:notimpl"
+
+def doCInner (l : Line) : Option String := do
+  let (g, n) ← customGeom (R := Rat) id l
+  -- the modulus is only used by the `norm=` / `dist=` callables, which `cInner` never calls
+  let c ← mkCustom (K := CRat) CRat.ofRat id exactOps (fun z => ratAbs z.re) n l
+  let x ← getVec id n l "x"
+  let y ← getVec id n l "y"
+  match g with
+  | none => some (showOptC (cInner c x y))
+  | some (u, axes) => some (showOptC (cdInner exactOps closeRat u axes c x y))
+
+def doCNorm (l : Line) : Option String := do
+  let (g, n) ← customGeom (R := Float) ratToFloat l
+  let c ← mkCustom (K := CF) (fun r => ⟨ratToFloat r, 0⟩) ratToFloat floatOps.toIOps floatOps.abs n l
+  let x ← getVec toCF n l "x"
+  match g with
+  | none => some (showOptF (cNorm floatOps.re floatRoots.sqrt c x))
+  | some (u, axes) => some (showOptF (cdNorm floatOps floatRoots u axes c x))
+
+def doCDist (l : Line) : Option String := do
+  let (g, n) ← customGeom (R := Float) ratToFloat l
+  let c ← mkCustom (K := CF) (fun r => ⟨ratToFloat r, 0⟩) ratToFloat floatOps.toIOps floatOps.abs n l
+  let x ← getVec toCF n l "x"
+  let y ← getVec toCF n l "y"
+  match g with
+  | none => some (showOptF (cDist floatOps.re floatRoots.sqrt vsub c x y))
+  | some (u, axes) => some (showOptF (cdDist floatOps floatRoots u axes c x y))
+
+
 def handle (l : Line) : Option String :=
   match l.op with
   | "inner" => doInner l
   | "norm" => doNorm l
   | "dist" => doDist l
   | "info" => doInfo l
+  | "cinner" => doCInner l
+  | "cnorm" => doCNorm l
+  | "cdist" => doCDist l
   | _ => none
 
 def main : IO Unit := driverLoop handle
